@@ -1419,3 +1419,190 @@ fn will_is_published_once_unless_the_client_said_disconnect() {
     }
     report(name, "C16", "will registered or not x retained or not x DISCONNECT seen or not x 0..2 matching subscribers x 1..2 PublishWill signals x will QoS 0/1", cases, fail);
 }
+
+// ---------------------------------------------------------------------------------------------
+// C14: isolation of a well-behaved pair from a misbehaving third client; stale signals after slot reuse
+// ---------------------------------------------------------------------------------------------
+#[derive(Clone, Copy, Debug)]
+enum Bad {
+    Connect,
+    Reconnect,
+    UnsolicitedPubAck,
+    UnsolicitedPubRec,
+    UnsolicitedPubComp,
+    UnsolicitedPubRel,
+    PublishWildcardTopic,
+    PublishUnicode,
+    SubscribeBadFilter,
+    SubscribeSameAsGoodAndStall,
+    Flood,
+    DropLink,
+    DisconnectPacket,
+    ReadyOutOfTurn,
+}
+
+const BADS: [Bad; 14] = [
+    Bad::Connect, Bad::Reconnect, Bad::UnsolicitedPubAck, Bad::UnsolicitedPubRec, Bad::UnsolicitedPubComp, Bad::UnsolicitedPubRel,
+    Bad::PublishWildcardTopic, Bad::PublishUnicode, Bad::SubscribeBadFilter, Bad::SubscribeSameAsGoodAndStall, Bad::Flood, Bad::DropLink,
+    Bad::DisconnectPacket, Bad::ReadyOutOfTurn,
+];
+
+fn misbehave(r: &mut Router, x: &mut Option<Client>, b: Bad) {
+    match b {
+        Bad::Connect | Bad::Reconnect => *x = connect(r, "x", matches!(b, Bad::Connect)).or(x.take()),
+        Bad::UnsolicitedPubAck => { if let Some(c) = x { send(r, c, vec![puback(9)]); } }
+        Bad::UnsolicitedPubRec => { if let Some(c) = x { send(r, c, vec![pubrec(9)]); } }
+        Bad::UnsolicitedPubComp => { if let Some(c) = x { send(r, c, vec![pubcomp(9)]); } }
+        Bad::UnsolicitedPubRel => { if let Some(c) = x { send(r, c, vec![pubrel(9)]); } }
+        // (on a topic outside the good subscription: whatever the broker does with an invalid topic name, it concerns x only)
+        Bad::PublishWildcardTopic => { if let Some(c) = x { send(r, c, vec![publish("x/#", 1, 3, "bad", false)]); } }
+        Bad::PublishUnicode => { if let Some(c) = x { send(r, c, vec![publish("\u{e9}/\u{1F600}", 0, 0, "u", false)]); } }
+        Bad::SubscribeBadFilter => { if let Some(c) = x { send(r, c, vec![subscribe(4, &[("g/#/x", 1)])]); } }
+        // subscribes to the good traffic and then never reads nor acknowledges
+        Bad::SubscribeSameAsGoodAndStall => { if let Some(c) = x { send(r, c, vec![subscribe(5, &[("g/#", 1)])]); } }
+        Bad::Flood => {
+            if let Some(c) = x {
+                let v: Vec<Packet> = (0..150).map(|i| publish("x/flood", 0, 0, &format!("{}", i), false)).collect();
+                send(r, c, v);
+            }
+        }
+        Bad::DropLink => { if let Some(c) = x.take() { r.events(c.id, Event::Disconnect); settle(r); } }
+        Bad::DisconnectPacket => {
+            if let Some(c) = x.take() {
+                send(r, &c, vec![Packet::Disconnect(crate::protocol::Disconnect { reason_code: crate::protocol::DisconnectReasonCode::NormalDisconnection }, None)]);
+            }
+        }
+        Bad::ReadyOutOfTurn => { if let Some(c) = x { r.events(c.id, Event::Ready); settle(r); } }
+    }
+}
+
+// @native props=C14 tier=quick fn=Router (isolation of a well-behaved publisher/subscriber pair)
+#[test]
+fn well_behaved_clients_are_unaffected_by_a_misbehaving_one() {
+    let name = "rumqttd::Router#well_behaved_pair_unaffected_by_third_client";
+    let depth = env_usize("VERIF_BAD_DEPTH", 3);
+    let n = BADS.len();
+    let mut cases = 0u64;
+    let mut fail: Option<String> = None;
+    let prev = std::panic::take_hook();
+    std::panic::set_hook(Box::new(|_| {}));
+    'outer: for code in 0..n.pow(depth as u32) {
+        let seq: Vec<Bad> = (0..depth).map(|k| BADS[(code / n.pow(k as u32)) % n]).collect();
+        cases += 1;
+        let verdict = catch_unwind(AssertUnwindSafe(|| -> Result<(), String> {
+            let mut r = new_router();
+            let g = connect(&mut r, "good-sub", true).ok_or("good subscriber refused")?;
+            let p = connect(&mut r, "good-pub", true).ok_or("good publisher refused")?;
+            send(&mut r, &g, vec![subscribe(1, &[("g/#", 1)])]);
+            let _ = drain(&mut r, &g);
+            let _ = drain(&mut r, &p);
+            let mut x: Option<Client> = None;
+            let mut expected = vec![];
+            for (k, b) in seq.iter().enumerate() {
+                misbehave(&mut r, &mut x, *b);
+                // one round of good traffic after every misbehaviour
+                let payload = format!("ok{}", k);
+                send(&mut r, &p, vec![publish("g/t", 1, 100 + k as u16, &payload, false)]);
+                let acks = shown(&drain(&mut r, &p));
+                if acks != vec![format!("PUBACK({})", 100 + k)] {
+                    return Err(format!("after {:?} the good publisher's QoS 1 publish was answered {:?}", b, acks));
+                }
+                expected.push(("g/t".to_string(), payload, 1u8, false));
+                let got = receive_all(&mut r, &g);
+                if got != vec![expected.last().unwrap().clone()] {
+                    return Err(format!("after {:?} the good subscriber received {:?}, expected exactly {:?}", b, got, expected.last().unwrap()));
+                }
+            }
+            if r.connection_map.get("good-sub") != Some(&g.id) || r.connection_map.get("good-pub") != Some(&p.id) {
+                return Err("a well-behaved client lost its connection".to_string());
+            }
+            Ok(())
+        }));
+        let verdict = match verdict { Ok(v) => v, Err(_) => Err("routing core panicked".to_string()) };
+        if let Err(e) = verdict {
+            fail = Some(format!("input=[third client does {:?}, one good publish after each step] detail=[{}]", seq, e));
+            break 'outer;
+        }
+    }
+    std::panic::set_hook(prev);
+    report(name, "C14", &format!("all sequences of {} misbehaviours out of {} by a third client, good QoS 1 traffic after each", depth, n), cases, fail);
+}
+
+/// how the earlier connection ended and who occupies its slot now
+fn stale_setup(r: &mut Router, takeover: bool) -> (ConnectionId, Client, Client) {
+    // `old` gets a slot; it ends; the slot is handed to a later connection (`newc`); `p` publishes to it
+    let p = connect(r, "p", true).unwrap();
+    let old = connect(r, "victim", true).unwrap();
+    let old_id = old.id;
+    let newc = if takeover {
+        // the same client id reconnects while the old connection is still registered
+        connect(r, "victim", true).unwrap()
+    } else {
+        r.events(old_id, Event::Disconnect);
+        settle(r);
+        connect(r, "someone-else", true).unwrap()
+    };
+    (old_id, newc, p)
+}
+
+fn later_connection_still_works(r: &mut Router, newc: &Client, p: &Client, what: &str) -> Result<(), String> {
+    if r.obufs.get(newc.id).map_or(true, |o| !Arc::ptr_eq(&o.data_buffer, &newc.obuf)) {
+        return Err(format!("the later connection was removed by the stale {}", what));
+    }
+    send(r, newc, vec![subscribe(1, &[("z/#", 0)])]);
+    let _ = drain(r, newc);
+    send(r, p, vec![publish("z/1", 0, 0, "hello", false)]);
+    let got = receive_all(r, newc);
+    if got != vec![("z/1".to_string(), "hello".to_string(), 0u8, false)] {
+        return Err(format!("after the stale {} the later connection received {:?}", what, got));
+    }
+    Ok(())
+}
+
+// @native props=C14 tier=quick fn=Router::events (late Ready / DeviceData / Shadow / PublishWill of an ended connection)
+#[test]
+fn stale_ready_devicedata_shadow_will_do_not_touch_a_later_connection() {
+    let name = "rumqttd::Router::events#stale_ready_devicedata_shadow_will_harmless_after_slot_reuse";
+    let mut cases = 0;
+    let mut fail: Option<String> = None;
+    'outer: for takeover in [false, true] {
+        for kind in 0..4 {
+            cases += 1;
+            let mut r = new_router();
+            let (old_id, newc, p) = stale_setup(&mut r, takeover);
+            let what = ["Ready", "DeviceData", "Shadow", "PublishWill"][kind];
+            match kind {
+                0 => r.events(old_id, Event::Ready),
+                1 => r.events(old_id, Event::DeviceData),
+                2 => r.events(old_id, Event::Shadow(ShadowRequest { filter: "z/1".to_owned() })),
+                _ => r.events(old_id, Event::PublishWill(("victim".to_owned(), None))),
+            }
+            settle(&mut r);
+            if let Err(e) = later_connection_still_works(&mut r, &newc, &p, what) {
+                fail = Some(format!("input=[slot reused by {} (slot id {}, later connection id {}), then a late {} of the ended connection] detail=[{}]", if takeover { "the same client id (takeover)" } else { "another client" }, old_id, newc.id, what, e));
+                break 'outer;
+            }
+        }
+    }
+    report(name, "C14", "slot reuse by takeover / by another client x late Ready, DeviceData, Shadow, PublishWill", cases, fail);
+}
+
+// @native props=C14 tier=quick fn=Router::events (late Disconnect of an ended connection)
+#[test]
+fn stale_disconnect_does_not_touch_a_later_connection() {
+    let name = "rumqttd::Router::events#stale_disconnect_after_slot_reuse";
+    let mut cases = 0;
+    let mut fail: Option<String> = None;
+    for takeover in [false, true] {
+        cases += 1;
+        let mut r = new_router();
+        let (old_id, newc, p) = stale_setup(&mut r, takeover);
+        r.events(old_id, Event::Disconnect);
+        settle(&mut r);
+        if let Err(e) = later_connection_still_works(&mut r, &newc, &p, "Disconnect") {
+            fail = Some(format!("input=[slot reused by {} (slot id {}, later connection id {}), then the late Disconnect of the ended connection] detail=[{}]", if takeover { "the same client id (takeover)" } else { "another client" }, old_id, newc.id, e));
+            break;
+        }
+    }
+    report(name, "C14", "slot reuse by takeover / by another client, then the ended connection's late Disconnect", cases, fail);
+}
